@@ -407,7 +407,7 @@ fn scenarios_for(backend: BackendKind, target: Target) -> Result<Vec<Scen>, Stri
 pub fn run(opts: &Opts) -> i32 {
     let rep = Report::new("C11", "fault_enumeration", opts);
     rep.set("exhaustive", true);
-    rep.set("rule", "history: replica A creates a task and syncs, replica B syncs, A changes it and syncs with ONE fault inside the backend's add_version (or inside a direct add_snapshot): for every internal step (local: named failpoints between its SQL statements; object store: every get/put/del/list/compare-and-swap request; git: before and after every git command and after each file write) x {error before the step, (object store) effect then error, process stop} x {restart with a new handle, keep the handle after an error}; then A syncs again, B commits its own change and syncs, both sync again, a new replica syncs; oracle: all those syncs succeed, all replicas identical and containing both changes, the chain served to a fresh handle replays to the same state, and a stale-parent probe is rejected naming the latest; distinct_nontrivial = scenarios whose fault hit after the backend had made its first write");
+    rep.set("rule", "history: replica A creates a task and syncs, replica B syncs, A changes it and syncs with ONE fault inside the backend's add_version (or inside a direct add_snapshot): for every internal step (local: named failpoints between its SQL statements; object store: every get/put/del/list/compare-and-swap request; git: before and after every git command and after each file write) x {error before the step, (object store) effect then error, process stop} x {restart with a new handle, keep the handle after an error} x {the interrupted replica comes back first, the other replica syncs first (after a stop)}; then A syncs again, B commits its own change and syncs, both sync again, a new replica syncs; plus a child process running the whole sync of a SQLite replica against the on-disk local server in three situations (push only, pull then push, very first version), SIGKILLed at the entry of its write syscalls (server and replica database alike), after which the chain is walked, the replica invariant checked and everybody continues; oracle: all those syncs succeed, all replicas identical and containing both changes, the chain served to a fresh handle replays to the same state, and a stale-parent probe is rejected naming the latest; distinct_nontrivial = scenarios whose fault hit after the backend had made its first write");
     rep.assume("every sync opens its own server handle (as every CLI invocation does); a 'stop' at a failpoint unwinds the stack (sqlite/rusqlite drop handlers run, which matches what sqlite recovery does on restart)");
     let q = opts.tier == Tier::Quick;
     // process kill (not an unwinding stop): a child runs a whole sync of a SQLite replica against
